@@ -15,6 +15,11 @@
 //!        | req:<method> | resp:<status> | data:<chunk.chunk|-> | trailers | finish | recv (read body and trailers)
 //!        | sstop:<code> (peer STOP_SENDING on the current stream) | shutdown:<n> | drop | stop:<code> | sel:<i>
 //!        | rehdr (calls the public conn.inner.send_control_stream_headers() again)
+//!        | puni:<hex> (the peer opens one more unidirectional stream carrying these bytes, then FIN) | cstop:<code> (peer
+//!          STOP_SENDING for our control stream) | zfin:<n> (the next n poll_finish on the current stream are Pending)
+//!        | xu (the transport fails with an error h3 does not know)
+//!   cfg may also be `-` (builder defaults) or `new` (server::Connection::new / client::new); only named settings are set.
+//!   wb steps: cK chunk-bounded read, aK raw advance, vK read through chunks_vectored(), bK copy_to_bytes(K)
 //!   output: `ok res=<one letter per op> s<id>=<hex>[/F] ...` for every stream h3 can write on.
 use bytes::{Buf, Bytes};
 use h3::proto::frame::{Frame, SettingId, Settings};
@@ -37,6 +42,25 @@ fn chunks(s: &str) -> ChunkBuf {
         ChunkBuf::new(vec![])
     } else {
         ChunkBuf::new(s.split('.').map(|c| Bytes::from(unhex(c))).collect())
+    }
+}
+
+/// the payload type B of a connection, built from a `chunk.chunk` hex description
+trait MkBuf: Buf + 'static {
+    fn mk(s: &str) -> Self;
+}
+impl MkBuf for ChunkBuf {
+    fn mk(s: &str) -> Self {
+        chunks(s)
+    }
+}
+impl MkBuf for Bytes {
+    fn mk(s: &str) -> Self {
+        if s == "-" {
+            Bytes::new()
+        } else {
+            Bytes::from(s.split('.').flat_map(unhex).collect::<Vec<u8>>())
+        }
     }
 }
 
@@ -105,6 +129,24 @@ fn run_wb(ctor: &str, steps: &str) -> String {
                 out.push_str(&hex(&c[..n]));
                 out.push(' ');
                 w.advance(n);
+            } else if st.starts_with('v') {
+                // a writev-style transport: looks at chunks_vectored(), takes at most k bytes across the slices
+                let mut slices = [std::io::IoSlice::new(&[]); 4];
+                let cnt = w.chunks_vectored(&mut slices);
+                let mut taken: Vec<u8> = Vec::new();
+                for sl in slices.iter().take(cnt) {
+                    let room = k - taken.len();
+                    taken.extend_from_slice(&sl[..room.min(sl.len())]);
+                }
+                out.push_str(&hex(&taken));
+                out.push(' ');
+                let n = taken.len();
+                w.advance(n);
+            } else if st.starts_with('b') {
+                // copy_to_bytes(k)
+                let b = w.copy_to_bytes(k);
+                out.push_str(&hex(&b));
+                out.push(' ');
             } else {
                 out.push_str(&format!("skip{} ", k));
                 w.advance(k);
@@ -179,26 +221,37 @@ fn request_bytes(kind: &str) -> &'static str {
     }
 }
 
+/// only the settings named in the cfg column are set on the builder; `-` = builder defaults, `new` = the
+/// `server::Connection::new` / `client::new` constructors
+#[derive(Default)]
 struct Cfg {
-    grease: bool,
-    mfs: u64,
-    ext: bool,
-    dgram: bool,
-    wt: bool,
-    wtn: u64,
+    new: bool,
+    grease: Option<bool>,
+    mfs: Option<u64>,
+    ext: Option<bool>,
+    dgram: Option<bool>,
+    wt: Option<bool>,
+    wtn: Option<u64>,
 }
 
 fn parse_cfg(s: &str) -> Cfg {
-    let mut c = Cfg { grease: true, mfs: (1u64 << 62) - 1, ext: false, dgram: false, wt: false, wtn: 0 };
+    let mut c = Cfg::default();
+    if s == "new" {
+        c.new = true;
+        return c;
+    }
+    if s == "-" {
+        return c;
+    }
     for p in s.split('.') {
         let v: u64 = p[1..].parse().unwrap();
         match &p[..1] {
-            "g" => c.grease = v != 0,
-            "m" => c.mfs = v,
-            "x" => c.ext = v != 0,
-            "d" => c.dgram = v != 0,
-            "w" => c.wt = v != 0,
-            "n" => c.wtn = v,
+            "g" => c.grease = Some(v != 0),
+            "m" => c.mfs = Some(v),
+            "x" => c.ext = Some(v != 0),
+            "d" => c.dgram = Some(v != 0),
+            "w" => c.wt = Some(v != 0),
+            "n" => c.wtn = Some(v),
             _ => panic!("driver: cfg {}", p),
         }
     }
@@ -217,7 +270,7 @@ macro_rules! stream_op {
     ($op:expr, $arg:expr, $streams:expr, $cur:expr, $cancel:expr, $res:expr) => {{
         match $op {
             "data" => match $cur.and_then(|i: usize| $streams[i].as_mut()) {
-                Some(s) => $res.push(r(cancellable(s.send_data(chunks($arg)), &$cancel).await)),
+                Some(s) => $res.push(r(cancellable(s.send_data(MkBuf::mk($arg)), &$cancel).await)),
                 None => $res.push('-'),
             },
             "trailers" => match $cur.and_then(|i: usize| $streams[i].as_mut()) {
@@ -262,34 +315,68 @@ macro_rules! stream_op {
 
 async fn server_app(w: Shared, cfg: Cfg, ops: Vec<String>, cancel: Rc<Cell<bool>>) -> String {
     let mut b = h3::server::builder();
-    b.send_grease(cfg.grease)
-        .max_field_section_size(cfg.mfs)
-        .enable_extended_connect(cfg.ext)
-        .enable_datagram(cfg.dgram)
-        .enable_webtransport(cfg.wt)
-        .max_webtransport_sessions(cfg.wtn);
-    let mut conn: h3::server::Connection<SimConn, ChunkBuf> =
-        match cancellable(b.build(SimConn { world: w.clone() }), &cancel).await {
-            Some(Ok(c)) => c,
-            Some(Err(e)) => return format!("build-err {}", conn_err(&e)),
-            None => return "build-cancelled".into(),
-        };
+    if let Some(v) = cfg.grease {
+        b.send_grease(v);
+    }
+    if let Some(v) = cfg.mfs {
+        b.max_field_section_size(v);
+    }
+    if let Some(v) = cfg.ext {
+        b.enable_extended_connect(v);
+    }
+    if let Some(v) = cfg.dgram {
+        b.enable_datagram(v);
+    }
+    if let Some(v) = cfg.wt {
+        b.enable_webtransport(v);
+    }
+    if let Some(v) = cfg.wtn {
+        b.max_webtransport_sessions(v);
+    }
+    let built = if cfg.new {
+        cancellable(h3::server::Connection::<SimConn, ChunkBuf>::new(SimConn { world: w.clone() }), &cancel).await
+    } else {
+        cancellable(b.build(SimConn { world: w.clone() }), &cancel).await
+    };
+    let mut conn: h3::server::Connection<SimConn, ChunkBuf> = match built {
+        Some(Ok(c)) => c,
+        Some(Err(e)) => return format!("build-err {}", conn_err(&e)),
+        None => return "build-cancelled".into(),
+    };
     let mut res = String::new();
     let mut streams: Vec<Option<h3::server::RequestStream<SimBidi<ChunkBuf>, ChunkBuf>>> = Vec::new();
     let mut cur: Option<usize> = None;
     let mut next_peer: u64 = 0;
+    let mut next_peer_uni: u64 = 2;
+    let mut peer_ctl: Option<u64> = None;
     for op in ops.iter() {
         let (k, a) = match op.find(':') {
             Some(i) => (&op[..i], &op[i + 1..]),
             None => (&op[..], ""),
         };
         match k {
-            "peer" | "pframe" | "poll" => {
-                if k == "peer" {
-                    apply_event(&w, "U2");
-                    apply_event(&w, &format!("2:c:{}", if a.is_empty() { "000400" } else { a }));
+            "peer" | "pframe" | "poll" | "puni" | "xu" => {
+                if k == "peer" || k == "puni" {
+                    // the peer opens its next unidirectional stream: its control stream (default bytes 000400) or any other
+                    let id = next_peer_uni;
+                    next_peer_uni += 4;
+                    if k == "peer" {
+                        peer_ctl = Some(id);
+                    }
+                    apply_event(&w, &format!("U{}", id));
+                    let bytes = if a.is_empty() { "000400" } else { a };
+                    if bytes != "-" {
+                        apply_event(&w, &format!("{}:c:{}", id, bytes));
+                    }
+                    if k == "puni" {
+                        apply_event(&w, &format!("{}:F", id));
+                    }
                 } else if k == "pframe" {
-                    apply_event(&w, &format!("2:c:{}", a));
+                    if let Some(id) = peer_ctl {
+                        apply_event(&w, &format!("{}:c:{}", id, a));
+                    }
+                } else if k == "xu" {
+                    apply_event(&w, "XU");
                 }
                 // accept() with nothing to accept: drives poll_control; may answer None (after sending its final GOAWAY)
                 match cancellable(conn.accept(), &cancel).await {
@@ -299,6 +386,19 @@ async fn server_app(w: Shared, cfg: Cfg, ops: Vec<String>, cancel: Rc<Cell<bool>
                     None => res.push('o'),
                 }
             }
+            "cstop" => {
+                // the peer sends STOP_SENDING for our control stream
+                apply_event(&w, &format!("3:S{}", a));
+                res.push('o');
+            }
+            "zfin" => match cur.and_then(|i| streams[i].as_mut()) {
+                Some(s) => {
+                    let id = s.send_id().into_inner();
+                    apply_event(&w, &format!("{}:Z{}", id, a));
+                    res.push('o')
+                }
+                None => res.push('-'),
+            },
             "acc" => {
                 let id = next_peer;
                 next_peer += 4;
@@ -388,42 +488,98 @@ async fn server_app(w: Shared, cfg: Cfg, ops: Vec<String>, cancel: Rc<Cell<bool>
             _ => stream_op!(k, a, streams, cur, cancel, res),
         }
     }
-    // keep the connection and the streams alive until the harness has read the world
-    std::mem::forget(streams);
-    std::mem::forget(conn);
+    // the application lets go of everything: the Drop impls run (they must not write)
+    drop(streams);
+    drop(conn);
     res
 }
 
 async fn client_app(w: Shared, cfg: Cfg, ops: Vec<String>, cancel: Rc<Cell<bool>>) -> String {
-    let mut b = h3::client::builder();
-    b.send_grease(cfg.grease).max_field_section_size(cfg.mfs).enable_extended_connect(cfg.ext).enable_datagram(cfg.dgram);
-    let (mut conn, mut sr): (h3::client::Connection<SimConn, ChunkBuf>, h3::client::SendRequest<SimOpener, ChunkBuf>) =
-        match cancellable(b.build(SimConn { world: w.clone() }), &cancel).await {
-            Some(Ok(c)) => c,
-            Some(Err(e)) => return format!("build-err {}", conn_err(&e)),
-            None => return "build-cancelled".into(),
+    if cfg.new {
+        // h3::client::new fixes the payload type to Bytes
+        return match cancellable(h3::client::new(SimConn { world: w.clone() }), &cancel).await {
+            Some(Ok((conn, sr))) => client_ops::<Bytes>(w, conn, sr, ops, cancel).await,
+            Some(Err(e)) => format!("build-err {}", conn_err(&e)),
+            None => "build-cancelled".into(),
         };
+    }
+    let mut b = h3::client::builder();
+    if let Some(v) = cfg.grease {
+        b.send_grease(v);
+    }
+    if let Some(v) = cfg.mfs {
+        b.max_field_section_size(v);
+    }
+    if let Some(v) = cfg.ext {
+        b.enable_extended_connect(v);
+    }
+    if let Some(v) = cfg.dgram {
+        b.enable_datagram(v);
+    }
+    match cancellable(b.build::<_, _, ChunkBuf>(SimConn { world: w.clone() }), &cancel).await {
+        Some(Ok((conn, sr))) => client_ops::<ChunkBuf>(w, conn, sr, ops, cancel).await,
+        Some(Err(e)) => format!("build-err {}", conn_err(&e)),
+        None => "build-cancelled".into(),
+    }
+}
+
+async fn client_ops<B: MkBuf>(
+    w: Shared,
+    mut conn: h3::client::Connection<SimConn, B>,
+    mut sr: h3::client::SendRequest<SimOpener, B>,
+    ops: Vec<String>,
+    cancel: Rc<Cell<bool>>,
+) -> String {
     let mut res = String::new();
-    let mut streams: Vec<Option<h3::client::RequestStream<SimBidi<ChunkBuf>, ChunkBuf>>> = Vec::new();
+    let mut streams: Vec<Option<h3::client::RequestStream<SimBidi<B>, B>>> = Vec::new();
     let mut cur: Option<usize> = None;
+    let mut next_peer_uni: u64 = 3;
+    let mut peer_ctl: Option<u64> = None;
     for op in ops.iter() {
         let (k, a) = match op.find(':') {
             Some(i) => (&op[..i], &op[i + 1..]),
             None => (&op[..], ""),
         };
         match k {
-            "peer" | "pframe" | "poll" => {
-                if k == "peer" {
-                    apply_event(&w, "U3");
-                    apply_event(&w, &format!("3:c:{}", if a.is_empty() { "000400" } else { a }));
+            "peer" | "pframe" | "poll" | "puni" | "xu" => {
+                if k == "peer" || k == "puni" {
+                    let id = next_peer_uni;
+                    next_peer_uni += 4;
+                    if k == "peer" {
+                        peer_ctl = Some(id);
+                    }
+                    apply_event(&w, &format!("U{}", id));
+                    let bytes = if a.is_empty() { "000400" } else { a };
+                    if bytes != "-" {
+                        apply_event(&w, &format!("{}:c:{}", id, bytes));
+                    }
+                    if k == "puni" {
+                        apply_event(&w, &format!("{}:F", id));
+                    }
                 } else if k == "pframe" {
-                    apply_event(&w, &format!("3:c:{}", a));
+                    if let Some(id) = peer_ctl {
+                        apply_event(&w, &format!("{}:c:{}", id, a));
+                    }
+                } else if k == "xu" {
+                    apply_event(&w, "XU");
                 }
                 match poll_once(poll_fn(|cx| conn.poll_close(cx))).await {
                     Some(_) => res.push('e'),
                     None => res.push('o'),
                 }
             }
+            "cstop" => {
+                apply_event(&w, &format!("2:S{}", a));
+                res.push('o');
+            }
+            "zfin" => match cur.and_then(|i| streams[i].as_mut()) {
+                Some(s) => {
+                    let id = s.id().into_inner();
+                    apply_event(&w, &format!("{}:Z{}", id, a));
+                    res.push('o')
+                }
+                None => res.push('-'),
+            },
             "sstop" => match cur.and_then(|i| streams[i].as_mut()) {
                 Some(s) => {
                     let id = s.id().into_inner();
@@ -452,9 +608,9 @@ async fn client_app(w: Shared, cfg: Cfg, ops: Vec<String>, cancel: Rc<Cell<bool>
             _ => stream_op!(k, a, streams, cur, cancel, res),
         }
     }
-    std::mem::forget(streams);
-    std::mem::forget(conn);
-    std::mem::forget(sr);
+    drop(streams);
+    drop(sr);
+    drop(conn);
     res
 }
 
